@@ -37,3 +37,13 @@ Proof.
   unfold KMeansFit.rel_change. replace ((c * prev - c * cur) / (c * prev)) with ((prev - cur) / prev) by (field; split; assumption).
   reflexivity.
 Qed.
+
+(* Known finding D15: the ML mean update divides by the FLOORED count max(n, eps).  With the statistics of shifted data
+   (sum_px + n*b) the update of a starved component (n < eps) is (s + n b) / eps, not s / eps + b: the claim "the ML mean update
+   is shift-equivariant whatever the counts" is refuted by a witness (for n >= eps it holds: ml_m_step_affine in Affine.v). *)
+Theorem starved_mean_update_shift_equivariant_refuted :
+  exists eps n s b : R, 0 < eps /\ 0 <= n < eps /\ (s + n * b) / Rmax n eps <> s / Rmax n eps + b.
+Proof.
+  exists 1, 0, 0, 1. split; [lra|]. split; [lra|].
+  rewrite Rmax_right by lra. replace ((0 + 0 * 1) / 1) with 0 by field. replace (0 / 1 + 1) with 1 by field. lra.
+Qed.
